@@ -386,7 +386,10 @@ pub fn judge_recorder(t: &RecorderTrace, o: &RecOutcome) -> Vec<Finding> {
         || !o.materials_expect.dangling.is_empty()
         || !o.products_expect.dangling.is_empty()
         || o.materials_expect.unreadable
-        || o.products_expect.unreadable;
+        || o.products_expect.unreadable
+        // several path arguments over a tree with link cycles: how far a walk goes round a cycle before
+        // it stops is left open, and with it whether two arguments reach one file under one key
+        || (t.paths.len() > 1 && (!o.materials_expect.cyclic.is_empty() || !o.products_expect.cyclic.is_empty()));
     match &o.result {
         Err(m) => {
             if let Some(rp) = &t.run {
@@ -654,7 +657,17 @@ pub fn gen_trace(seed: u64, tier: Tier) -> RecorderTrace {
         labels.push("FIFO-IN-TREE".into());
     }
     // path arguments
-    let mut paths: Vec<String> = match r.weighted(&[30, 25, 15, 10, 10, 10]) {
+    let mut paths: Vec<String> = match r.weighted(&[30, 25, 15, 10, 10, 10, if links.is_empty() { 0 } else { 12 }]) {
+        6 => {
+            // a link named as an argument of its own, and then the directory it lies in
+            labels.push("ARGS-LINK-THEN-DIR".into());
+            let l = r.pick(&links).clone();
+            let parent = match l.rfind('/') {
+                Some(i) => l[..i].to_string(),
+                None => ".".to_string(),
+            };
+            vec![l, parent]
+        }
         0 => vec![".".into()],
         1 => vec![r.pick(&dirs).clone()],
         2 => {
